@@ -289,11 +289,251 @@ instance (p : Policy) (i : Inputs) : Decidable (InboundNoWrap p i) := by
   unfold InboundNoWrap; infer_instance
 instance (p : Policy) (c : Cfg) (i : Inputs) : Decidable (Dom p c i) := by unfold Dom; infer_instance
 
+/-! ### The sharp domain: one conjunct per fixed-width operation of the decision
+
+`DomWide` lists, operation by operation, what keeps the Go arithmetic of `CheckHtlcForward` exact.
+It contains `Dom` (Props: `dom_subset_domWide`), makes no assumption on min/max HTLC, bandwidth,
+incoming expiry or time-lock delta, and every conjunct is necessary (Props: `domWide_*_necessary`
+give, for each one, an input violating only that conjunct on which the Go verdict differs from the
+exact one). -/
+
+/-- `int64(incomingHtlcAmt)` is the amount itself. -/
+def WIn (i : Inputs) : Prop := i.incoming < 9223372036854775808
+/-- `htlcAmt * FeeRate` does not wrap in uint64. -/
+def WRateMul (p : Policy) (i : Inputs) : Prop := i.outgoing * p.feeRate < 18446744073709551616
+/-- the inbound base fee is an `int32` (a typing constraint of `models.InboundFee`). -/
+def WInBase (i : Inputs) : Prop := IsI32 i.inBase
+/-- `rate * int64(amt)` of `CalcFee` does not underflow … -/
+def WInMulLo (p : Policy) (i : Inputs) : Prop :=
+  -9223372036854775808 < clampRate i.inRate * ((i.outgoing + Spec.outFee p i.outgoing : Nat) : Int)
+/-- … nor overflow `int64`. -/
+def WInMulHi (p : Policy) (i : Inputs) : Prop :=
+  clampRate i.inRate * ((i.outgoing + Spec.outFee p i.outgoing : Nat) : Int) < 9223372036854775808
+/-- `inFee + int64(outFee)` does not overflow `int64` (this also keeps `outFee` and
+    `amtToForward + outFee` from wrapping in uint64). -/
+def WTotal (p : Policy) (i : Inputs) : Prop := Spec.requiredFee p i < 9223372036854775808
+/-- `heightNow + OutgoingCltvRejectDelta` does not wrap in uint32. -/
+def WSoon (c : Cfg) (i : Inputs) : Prop := i.height + c.rejectDelta < 4294967296
+/-- `MaxOutgoingCltvExpiry + heightNow` does not wrap in uint32. -/
+def WFar (c : Cfg) (i : Inputs) : Prop := i.height + c.maxCltv < 4294967296
+
+def DomWide (p : Policy) (c : Cfg) (i : Inputs) : Prop :=
+  WIn i ∧ WRateMul p i ∧ WInBase i ∧ WInMulLo p i ∧ WInMulHi p i ∧ WTotal p i ∧
+  WSoon c i ∧ WFar c i
+
+instance (i : Inputs) : Decidable (WIn i) := by unfold WIn; infer_instance
+instance (p : Policy) (i : Inputs) : Decidable (WRateMul p i) := by unfold WRateMul; infer_instance
+instance (i : Inputs) : Decidable (WInBase i) := by unfold WInBase; infer_instance
+instance (p : Policy) (i : Inputs) : Decidable (WInMulLo p i) := by unfold WInMulLo; infer_instance
+instance (p : Policy) (i : Inputs) : Decidable (WInMulHi p i) := by unfold WInMulHi; infer_instance
+instance (p : Policy) (i : Inputs) : Decidable (WTotal p i) := by unfold WTotal; infer_instance
+instance (c : Cfg) (i : Inputs) : Decidable (WSoon c i) := by unfold WSoon; infer_instance
+instance (c : Cfg) (i : Inputs) : Decidable (WFar c i) := by unfold WFar; infer_instance
+instance (p : Policy) (c : Cfg) (i : Inputs) : Decidable (DomWide p c i) := by
+  unfold DomWide; infer_instance
+
 /-- Domain of a locally sourced HTLC (`CheckHtlcTransit` does no fee arithmetic). -/
 def DomTransit (c : Cfg) (timeout height : Nat) : Prop :=
   height < 2147483648 ∧ timeout < 2147483648 ∧ c.rejectDelta < 2147483648 ∧ c.maxCltv < 2147483648
 
 instance (c : Cfg) (t h : Nat) : Decidable (DomTransit c t h) := by unfold DomTransit; infer_instance
+
+/-! ## Level 1b: the failure as it goes on the wire
+
+`CheckHtlcForward` does not return a verdict but a `*LinkError` built by
+`NewLinkError(createFailureWithUpdate(false, originalScid, cb))` (htlcswitch/failure.go,
+link.go): the failure message embeds the channel_update that `cfg.FailAliasUpdate` returns, or,
+when that is nil, the one from `cfg.FetchLastChannelUpdate` (`FailTemporaryNodeFailure` if that
+lookup fails).  The switch sends `failure.WireMessage()` upstream (`failAddPacket`:
+`EncryptFirstHop(failure.WireMessage())`).  This level is written after the Go text,
+independently of the verdict-level `Gen.checkHtlcForward`; Lemmas.lean proves that the two agree. -/
+
+/-- BOLT-4 failure codes (lnwire/onion_error.go): UPDATE = 0x1000, NODE = 0x2000, PERM = 0x4000. -/
+abbrev codeTemporaryNodeFailure : Nat := 8194     -- NODE|2
+abbrev codeTemporaryChannelFailure : Nat := 4103  -- UPDATE|7
+abbrev codeUnknownNextPeer : Nat := 16394         -- PERM|10
+abbrev codeAmountBelowMinimum : Nat := 4107       -- UPDATE|11
+abbrev codeFeeInsufficient : Nat := 4108          -- UPDATE|12
+abbrev codeIncorrectCltvExpiry : Nat := 4109      -- UPDATE|13
+abbrev codeExpiryTooSoon : Nat := 4110            -- UPDATE|14
+abbrev codeChannelDisabled : Nat := 4116          -- UPDATE|20
+abbrev codeExpiryTooFar : Nat := 21
+
+/-- Fingerprint of a `lnwire.ChannelUpdate1`: short channel id, `message_flags·256 + channel_flags`
+    (bit 1 of the channel flags = disabled), digest of every other field. -/
+structure Upd where
+  scid : Nat
+  flags : Nat
+  digest : Nat
+  deriving Repr, DecidableEq
+
+/-- `FailureDetail` values that occur on these paths (not sent on the wire). -/
+inductive Detail
+  | none | htlcExceedsMax | insufficientBalance | linkNotEligible | circularRoute | forwardsDisabled
+  deriving Repr, DecidableEq
+
+/-- A BOLT-4 failure message: code, the integer in the failure data (`-1`: none), the embedded
+    channel_update. -/
+structure WireFailure where
+  code : Nat
+  payload : Int
+  upd : Option Upd
+  deriving Repr, DecidableEq
+
+/-- `htlcswitch.LinkError`. -/
+structure LinkError where
+  msg : WireFailure
+  detail : Detail
+  deriving Repr, DecidableEq
+
+namespace Gen
+
+/-- `createFailureWithUpdate(false, originalScid, cb)`: `alias` = result of `cfg.FailAliasUpdate`,
+    `fetched` = result of `cfg.FetchLastChannelUpdate` (`none`: error). -/
+def createFailureWithUpdate (alias fetched : Option Upd) (cb : Upd → WireFailure) : WireFailure :=
+  match alias with
+  | some u => cb u
+  | none =>
+    match fetched with
+    | some u => cb u
+    | none => ⟨codeTemporaryNodeFailure, -1, none⟩
+
+/-- `NewLinkError(msg)`. -/
+def newLinkError (msg : WireFailure) : LinkError := ⟨msg, .none⟩
+/-- `NewDetailedLinkError(msg, detail)`. -/
+def newDetailedLinkError (msg : WireFailure) (d : Detail) : LinkError := ⟨msg, d⟩
+/-- `(*LinkError).WireMessage()`. -/
+def wireMessage (e : LinkError) : WireFailure := e.msg
+/-- What the upstream peer decodes from the `update_fail_htlc` built by `failAddPacket`:
+    `EncryptFirstHop(failure.WireMessage())` followed by decryption and `DecodeFailure`. -/
+def finalWire (e : LinkError) : WireFailure := wireMessage e
+
+/-- `validateHtlcAmount`, returning the `*LinkError` (`none` = nil). -/
+def validateHtlcAmountLE (p : Policy) (amt : Nat) (alias fetched : Option Upd) : Option LinkError :=
+  if amt < p.minHtlc then
+    some (newLinkError (createFailureWithUpdate alias fetched
+      fun u => ⟨codeAmountBelowMinimum, amt, some u⟩))
+  else if p.maxHtlc ≠ 0 ∧ amt > p.maxHtlc then
+    some (newDetailedLinkError (createFailureWithUpdate alias fetched
+      fun u => ⟨codeTemporaryChannelFailure, -1, some u⟩) .htlcExceedsMax)
+  else none
+
+/-- `canSendHtlc`, returning the `*LinkError`. -/
+def canSendHtlcLE (p : Policy) (c : Cfg) (amt timeout height : Nat) (alias fetched : Option Upd) :
+    Option LinkError :=
+  match validateHtlcAmountLE p amt alias fetched with
+  | some e => some e
+  | none =>
+    if timeout ≤ (height + c.rejectDelta) % 4294967296 then
+      some (newLinkError (createFailureWithUpdate alias fetched
+        fun u => ⟨codeExpiryTooSoon, -1, some u⟩))
+    else if timeout > (c.maxCltv + height) % 4294967296 then
+      some (newLinkError ⟨codeExpiryTooFar, -1, none⟩)
+    else if amt > c.bandwidth then
+      some (newDetailedLinkError (createFailureWithUpdate alias fetched
+        fun u => ⟨codeTemporaryChannelFailure, -1, some u⟩) .insufficientBalance)
+    else none
+
+/-- `CheckHtlcTransit`, returning the `*LinkError`. -/
+def checkHtlcTransitLE (p : Policy) (c : Cfg) (amt timeout height : Nat)
+    (alias fetched : Option Upd) : Option LinkError :=
+  canSendHtlcLE p c amt timeout height alias fetched
+
+/-- `CheckHtlcForward`, returning the `*LinkError`. -/
+def checkHtlcForwardLE (p : Policy) (c : Cfg) (i : Inputs) (alias fetched : Option Upd) :
+    Option LinkError :=
+  if i.incoming < i.outgoing ∨ actualFee i < expectedTotal p i then
+    some (newLinkError (createFailureWithUpdate alias fetched
+      fun u => ⟨codeFeeInsufficient, i.outgoing, some u⟩))
+  else match canSendHtlcLE p c i.outgoing i.expOut i.height alias fetched with
+    | some e => some e
+    | none =>
+      let incomingDelta := if i.expIn ≥ i.expOut then i.expIn - i.expOut else 0
+      if i.expIn < i.expOut ∨ incomingDelta < p.timeLockDelta then
+        some (newLinkError (createFailureWithUpdate alias fetched
+          fun u => ⟨codeIncorrectCltvExpiry, i.expIn, some u⟩))
+      else if incomingDelta > c.maxCltv then
+        some (newLinkError ⟨codeExpiryTooFar, -1, none⟩)
+      else none
+
+end Gen
+
+/-- The BOLT-4 code a verdict goes out with when a channel_update is available. -/
+def Verdict.code : Verdict → Nat
+  | .accept => 0
+  | .feeInsufficient => codeFeeInsufficient
+  | .amountBelowMinimum => codeAmountBelowMinimum
+  | .htlcExceedsMax => codeTemporaryChannelFailure
+  | .expiryTooSoon => codeExpiryTooSoon
+  | .expiryTooFar => codeExpiryTooFar
+  | .insufficientBandwidth => codeTemporaryChannelFailure
+  | .incorrectCltvExpiry => codeIncorrectCltvExpiry
+  | .deltaTooFar => codeExpiryTooFar
+
+/-- Failures whose message carries a channel_update (built through `createFailureWithUpdate`). -/
+def Verdict.carriesUpdate : Verdict → Bool
+  | .accept | .expiryTooFar | .deltaTooFar => false
+  | _ => true
+
+/-- The failure detail attached by `NewDetailedLinkError`. -/
+def Verdict.detail : Verdict → Detail
+  | .htlcExceedsMax => .htlcExceedsMax
+  | .insufficientBandwidth => .insufficientBalance
+  | _ => .none
+
+/-- The `*LinkError` a verdict stands for, given the two update sources. -/
+def Verdict.toLinkError (i : Inputs) (alias fetched : Option Upd) (v : Verdict) : Option LinkError :=
+  match v with
+  | .accept => none
+  | v =>
+    if v.carriesUpdate then
+      some ⟨Gen.createFailureWithUpdate alias fetched fun u => ⟨v.code, v.payload i, some u⟩, v.detail⟩
+    else some ⟨⟨v.code, -1, none⟩, .none⟩
+
+/-- The harness' name of a wire failure (failure type + detail). -/
+def LinkError.wire (e : LinkError) : String :=
+  if e.msg.code = codeFeeInsufficient then "FeeInsufficient"
+  else if e.msg.code = codeAmountBelowMinimum then "AmountBelowMinimum"
+  else if e.msg.code = codeIncorrectCltvExpiry then "IncorrectCltvExpiry"
+  else if e.msg.code = codeExpiryTooSoon then "ExpiryTooSoon"
+  else if e.msg.code = codeExpiryTooFar then "ExpiryTooFar"
+  else if e.msg.code = codeTemporaryNodeFailure then "TemporaryNodeFailure"
+  else if e.msg.code = codeUnknownNextPeer then
+    (match e.detail with
+     | .none => "UnknownNextPeer" | .linkNotEligible => "UnknownNextPeer/LinkNotEligible"
+     | _ => "UnknownNextPeer/other")
+  else if e.msg.code = codeChannelDisabled then
+    (match e.detail with
+     | .none => "ChannelDisabled" | .forwardsDisabled => "ChannelDisabled/ForwardsDisabled"
+     | _ => "ChannelDisabled/other")
+  else if e.msg.code = codeTemporaryChannelFailure then
+    (match e.detail with
+     | .none => "TemporaryChannelFailure/none"
+     | .htlcExceedsMax => "TemporaryChannelFailure/HtlcExceedsMax"
+     | .insufficientBalance => "TemporaryChannelFailure/InsufficientBalance"
+     | .linkNotEligible => "TemporaryChannelFailure/LinkNotEligible"
+     | .circularRoute => "TemporaryChannelFailure/CircularRoute"
+     | .forwardsDisabled => "TemporaryChannelFailure/other")
+  else s!"other:{e.msg.code}"
+
+namespace Spec
+
+/-- The rule named by a BOLT-4 failure CODE is violated.  `temporary_channel_failure` names the
+    max_htlc or the bandwidth rule, `expiry_too_far` the absolute or the relative bound;
+    `temporary_node_failure` names no rule and is justified only when no channel_update can be
+    obtained (`updAvail = false`) for an HTLC that some rule rejects; every other code
+    (`channel_disabled`, `unknown_next_peer`, …) names nothing `CheckHtlcForward` enforces. -/
+def CodeViolated (p : Policy) (c : Cfg) (i : Inputs) (updAvail : Bool) (code : Nat) : Prop :=
+  if code = codeFeeInsufficient then ¬ FeeOk p i
+  else if code = codeAmountBelowMinimum then ¬ MinOk p i.outgoing
+  else if code = codeTemporaryChannelFailure then ¬ MaxOk p i.outgoing ∨ ¬ BwOk c i.outgoing
+  else if code = codeExpiryTooSoon then ¬ NotTooSoon c i.expOut i.height
+  else if code = codeExpiryTooFar then ¬ NotTooFar c i.expOut i.height ∨ ¬ DeltaMaxOk c i
+  else if code = codeIncorrectCltvExpiry then ¬ DeltaOk p i
+  else if code = codeTemporaryNodeFailure then updAvail = false ∧ ¬ AllOk p c i
+  else False
+
+end Spec
 
 /-! ## Level 2: the switch choosing among parallel links to the next peer
 
@@ -304,12 +544,17 @@ that are `EligibleToForward` and whose `CheckHtlcForward` returned nil) and the 
 forward over `destinations[rand.Intn(len(destinations))]`.  Not modelled: `RejectHTLC`,
 circular-route check, alias mapping, dust/fee-exposure check after the choice. -/
 
-/-- One candidate link to the next peer. -/
+/-- One link registered in the switch (a candidate once its peer is the next hop). `scid` =
+    `ShortChanID()` (the key of `forwardingIndex`), `fetched` = the channel_update the node
+    currently has for this channel (`none`: lookup fails). -/
 structure Cand where
   scid : Nat
   eligible : Bool
   p : Policy
   c : Cfg
+  peer : Nat := 0
+  unadvertised : Bool := false
+  fetched : Option Upd := none
   deriving Repr, DecidableEq
 
 /-- Failure returned by the switch for an add. -/
@@ -318,6 +563,7 @@ inductive SwFailure
   | localNotEligible   -- FailTemporaryChannelFailure + OutgoingFailureLinkNotEligible (getLocalLink)
   | unknownNextPeer    -- FailUnknownNextPeer
   | link (v : Verdict) -- the failure of that link's CheckHtlcForward / CheckHtlcTransit
+  | forwardsDisabled   -- FailChannelDisabled + OutgoingFailureForwardsDisabled (cfg.RejectHTLC)
   deriving Repr, DecidableEq
 
 def SwFailure.wire : SwFailure → String
@@ -325,6 +571,7 @@ def SwFailure.wire : SwFailure → String
   | .localNotEligible => "TemporaryChannelFailure/LinkNotEligible"
   | .unknownNextPeer => "UnknownNextPeer"
   | .link v => v.wire
+  | .forwardsDisabled => "ChannelDisabled/ForwardsDisabled"
 
 def SwFailure.payload (i : Inputs) : SwFailure → Int
   | .link v => v.payload i
@@ -383,6 +630,71 @@ def getLocalLink (l : Option Cand) (amt timeout height : Nat) : SwOutcome :=
       | .accept => .forward l.scid
       | v => .fail (.link v)
 
+/-- `Switch.getLinkByMapping`: `isAlias` = `cfg.IsAlias(chanID)`, `base` = `baseIndex[chanID]`,
+    `links` = the registered links (`forwardingIndex` = lookup by `scid`).  Returns the target link
+    and the value `pkt.outgoingChanID` has afterwards (rewritten to the base scid so that the
+    failure is attributed to the link `linkErrs` is keyed by). -/
+def getLinkByMapping (isAlias : Bool) (base : Option Nat) (chanID : Nat) (links : List Cand) :
+    Option (Cand × Nat) :=
+  if isAlias then
+    match base with
+    | none => none
+    | some b =>
+      match links.find? (fun l => l.scid = b) with
+      | none => none
+      | some l => some (l, b)
+  else
+    match base with
+    | none =>
+      match links.find? (fun l => l.scid = chanID) with
+      | none => none
+      | some l => some (l, chanID)
+    | some b =>
+      match links.find? (fun l => l.scid = b) with
+      | none => none
+      | some l => if l.unadvertised then none else some (l, b)
+
+/-- `handlePacketAdd` from the top: `cfg.RejectHTLC`, resolution of the next hop (node id, or
+    channel id through `getLinkByMapping`), candidate set = all links to the resolved peer, then the
+    scan / choice of `handlePacketAdd`.  Not modelled: circular-route check, dust/fee-exposure
+    check after the choice. -/
+def handlePacketAddFull (rejectHTLC nodeMode : Bool) (peerKey : Nat) (isAlias : Bool)
+    (base : Option Nat) (chanID : Nat) (allLinks : List Cand) (r : Nat) (i : Inputs) : SwOutcome :=
+  if rejectHTLC then .fail .forwardsDisabled
+  else if nodeMode then
+    match allLinks.filter (fun l => l.peer = peerKey) with
+    | [] => .fail .unknownNextPeer
+    | ls => handlePacketAdd true 0 ls r i
+  else
+    match getLinkByMapping isAlias base chanID allLinks with
+    | none => .fail .unknownNextPeer
+    | some (t, out) => handlePacketAdd false out (allLinks.filter (fun l => l.peer = t.peer)) r i
+
+/-- `getLocalLink` with its lookup: `forwardingIndex[chanID]`, else `forwardingIndex[baseIndex[chanID]]`. -/
+def getLocalLinkMapped (base : Option Nat) (chanID : Nat) (links : List Cand)
+    (amt timeout height : Nat) : SwOutcome :=
+  match links.find? (fun l => l.scid = chanID) with
+  | some l => getLocalLink (some l) amt timeout height
+  | none =>
+    match base with
+    | none => .fail .unknownNextPeer
+    | some b => getLocalLink (links.find? (fun l => l.scid = b)) amt timeout height
+
+/-- The channel_update a failure of link `t` carries when the sender named it `orig`
+    (`Switch.failAliasUpdate(orig, false)`, falling back to the link's own lookup): the node's
+    current update for the channel, re-labelled with the alias when an alias was used. -/
+def failureUpdate (isAlias : Bool) (base : Option Nat) (orig : Nat) (t : Cand) : Option Upd :=
+  if isAlias ∧ base.isSome then t.fetched.map (fun u => { u with scid := orig }) else t.fetched
+
 end Gen
+
+/-- The `*LinkError` handed to `failAddPacket` for a switch-level failure; `upd` = the update
+    the failing link's `createFailureWithUpdate` obtains. -/
+def SwFailure.toLinkError (i : Inputs) (upd : Option Upd) : SwFailure → LinkError
+  | .notEligible => ⟨⟨codeUnknownNextPeer, -1, none⟩, .linkNotEligible⟩
+  | .localNotEligible => ⟨⟨codeTemporaryChannelFailure, -1, none⟩, .linkNotEligible⟩
+  | .unknownNextPeer => ⟨⟨codeUnknownNextPeer, -1, none⟩, .none⟩
+  | .forwardsDisabled => ⟨⟨codeChannelDisabled, -1, none⟩, .forwardsDisabled⟩
+  | .link v => (v.toLinkError i none upd).getD ⟨⟨0, -1, none⟩, .none⟩
 
 end LndModel.C09
